@@ -206,6 +206,8 @@ class Ctx:
     def index_check(self, bad, good, t, dim, site):
         """integer subscript: in numba code -> safety obligation; otherwise an IndexError path"""
         if self.safety:
+            if self.opts.get('no_index'):
+                return      # this contract does not cover index safety (stated in its docstring / plan)
             self.oblige("index-safety@%s" % (site or next(self.sitectr)), good, 'index')
         else:
             self.may_raise(bad, 'IndexError', site)
